@@ -16,6 +16,7 @@ SIZ = dict(BOOL=1, SINT=1, USINT=1, INT=2, UINT=2, DINT=4, UDINT=4, REAL=4, LINT
 RNG = dict(BOOL=(0, 1), SINT=(-128, 127), INT=(-32768, 32767), DINT=(-2**31, 2**31 - 1), LINT=(-2**63, 2**63 - 1),
            USINT=(0, 255), UINT=(0, 65535), UDINT=(0, 2**32 - 1), ULINT=(0, 2**64 - 1))
 MOD = 2305843009213693951
+SIBLING = dict(SINT='USINT', USINT='SINT', INT='UINT', UINT='INT', DINT='UDINT', UDINT='DINT', LINT='ULINT', ULINT='LINT', REAL='UDINT', LREAL='ULINT', BOOL='USINT')
 QUIRKS = 3   # model behaviour switches: 3 = current /repo (both fixes), 0 = originally pinned tree
 
 
@@ -399,6 +400,9 @@ def gen_req(rng, tags, addrs, kinds=('read', 'readf', 'write', 'writef', 'get', 
     if kind in ('write', 'writef'):
         if rng.random() < 0.7:
             rty = ty
+        elif rng.random() < 0.5:
+            # the same-width sibling type: its values fit the wire but not necessarily the tag (UDINT 0xFFFFFFFF into a DINT)
+            rty = SIBLING.get(ty, ty)
         else:
             rty = rng.choice(list(TY))
         code = TY[rty] if rng.random() < 0.97 else rng.choice([0xD2, 0xD3, 0xA0, 0])
